@@ -6,7 +6,7 @@ from hypothesis import strategies as st
 
 from vlib import gens
 from vlib.core import unchanged, Prop, Sub, Violation, calling, check
-from vlib.oracles import _linprog, lp_margin
+from vlib.oracles import rows_sharing_a_solution, _linprog, lp_margin
 from vlib.systems import proportional_variant, Sys, matrix_system, target_rows
 
 
@@ -19,6 +19,12 @@ def under_case(draw):
     sysd, _prop = draw(proportional_variant(draw(under_system())))
     sv = Sys(sysd)
     rows = draw(target_rows(sysd, ["interior", "interior", "interior", "near_in"], nrows=(1, 2), margin=(0.05, 0.45)))
+    if draw(st.integers(0, 3)) == 0:
+        # a fine intensity ramp: consecutive targets a few 1e-6 apart (relative) are different problems
+        r0 = rows[-1]
+        for _ in range(draw(st.integers(1, 2))):
+            f = 1.0 + draw(gens.log_uniform(1e-7, 1e-5))
+            rows.append(dict(r0, b=(np.asarray(rows[-1]["b"], dtype=float) * f).tolist(), kind="interior+ramp"))
     kind = draw(st.sampled_from(["none", "l2", "min", "max", "var", "number", "vector"]))
     opt = kind
     if kind == "number":
@@ -115,7 +121,10 @@ def body_under(case):
     model = sv.predict(X)
     mag = np.abs(X) @ np.abs(sv.Ap).T + np.abs(sv.basep)
     check(np.all(np.abs(Bp - model) <= 1e-9 * mag + 1e-300), "under:prediction", "B_pred is not the model's capture of X")
-    labs = sv.labels() + [f"opt:{kind}", f"entry:{case['entry']}", "W" if W is not None else "noW"] + (["proportional-sources"] if case.get("proportional") else [])
+    if kind not in ("min", "max"):
+        pairs = rows_sharing_a_solution(B, X, sv.lb, sv.ub, sv.Ap)
+        check(not pairs, "under:rows-share-a-solution", f"rows {pairs} have different targets but bit-identical intensities (option {kind})")
+    labs = sv.labels() + [f"opt:{kind}", f"entry:{case['entry']}", "W" if W is not None else "noW"] + (["ramp-rows"] if any("ramp" in r["kind"] for r in case["rows"]) else []) + (["proportional-sources"] if case.get("proportional") else [])
     goal = goal_fn(kind, opt)
     for i, b in enumerate(B):
         res = float(np.linalg.norm(w * (model[i] - b)))
